@@ -824,6 +824,17 @@ class Model:
                         else:
                             raise TypeError('Incorrect data type.')
                         row_ind = i*num_rand + np.arange(num_rand, dtype=int)
+                        if isinstance(drule, RoAffine):
+                            # decisions with random coefficients must not
+                            # depend on the random variables themselves
+                            dec_ind = np.unique(raffine.linear[row_ind].indices)
+                            dec_ind = dec_ind[dec_ind < drule.raffine.shape[0]]
+                            if len(dec_ind) > 0:
+                                coeffs = drule.raffine[dec_ind]
+                                if (coeffs.linear.nnz > 0 or
+                                        np.any(coeffs.const)):
+                                    raise SyntaxError('Incorrect affine '
+                                                      'expressions.')
                         new_raffine = raffine.linear[row_ind] @ temp
                         new_raffine = new_raffine.reshape((1, new_raffine.size))
                         new_raffine += raffine.const[i, :num_rand] + extra
